@@ -165,6 +165,8 @@ fn unit_case(cases: &mut Cases, cells: &[Cell], style: u64, strip: bool, gen_cla
     let nullable = ops.iter().any(|o| matches!(o, CodecOp::Nullable));
     let class = format!("{}unit:{}:{}:{}", if gen_class.starts_with("corpus:") { format!("{}:", gen_class) } else { String::new() }, if sig.is_empty() { format!("id-{}", col.data().first().map(|s| sec_tok(s).split(':').next().unwrap().to_string()).unwrap_or_default()) } else { sig.join(".") },
         if nullable { "nullable" } else { "dense" }, if compressed { "compressed" } else { "plain" });
+    // columns built to have a null map shorter than rows / 8 (or whole leading NULL bytes) are counted apart
+    let class = if gen_class.starts_with("tail") || gen_class.starts_with("lead") { format!("{}:shortmap", class) } else { class };
     let line = format!("{} {} {} {} {}", ops_tok, secs.len(), secs.join(" "), orig0, cells_tok(cells));
     cases.push(&class, &format!("dec {}", line), &cells_out, &format!("gen={} n={} style={} strip={}", gen_class, cells.len(), style, strip));
     cases.push(&format!("{}:raw", class), &format!("raw {}", line), &raw_out, "");
@@ -241,6 +243,36 @@ fn unit_stream(cases: &mut Cases, rng: &mut Rng, thorough: bool) {
     // the dictionary / packed size, so that shape is left to the theorems, which are for all index widths)
     // all-NULL column (Column::null) of several lengths
     for &n in lens { unit_case(cases, &vec![Cell::Null; n], rng.below(6), false, "null"); }
+    unit_tail_stream(cases);
+}
+
+/// Columns whose stored null map is SHORTER than rows / 8 (the rows end in NULL runs that cover whole bytes: `BitVecMut::set`
+/// grows the map on demand) or starts with whole NULL bytes (`init_present` of an `Empty` buffer), for every codec family:
+/// the free `decode` must hand the map on as it is (`make_nullable`), the raw line compares its bytes.  Deterministic.
+fn unit_tail_stream(cases: &mut Cases) {
+    let kinds: [(&str, Box<dyn Fn(usize) -> Cell>); 8] = [
+        ("u8", Box::new(|i| Cell::Int(1 + (i * 37 % 200) as i64))),
+        ("u8off", Box::new(|i| Cell::Int(-1_000_000 - (i * 37 % 200) as i64))),
+        ("u16", Box::new(|i| Cell::Int(1 + (i * 7919 % 60_000) as i64))),
+        ("mono", Box::new(|i| Cell::Int(1000 + 3 * i as i64))),
+        ("float", Box::new(|i| Cell::f(0.5 + i as f64))),
+        ("lowcard", Box::new(|i| Cell::Str(["b", "d", "zz"][i % 3].to_string()))),
+        ("highcard", Box::new(|i| Cell::Str(format!("row-{}-{}", i, i * 7919 % 1000)))),
+        ("hex", Box::new(|i| Cell::Str(format!("{:08x}", (i as u32 + 1).wrapping_mul(0x9E37_79B9))))),
+    ];
+    for (name, val) in kinds.iter() {
+        for &n in &[16usize, 24, 65] {
+            for &r in &[8usize, 9, 16] {
+                if r >= n { continue; }
+                // values (one NULL inside) then `r` NULLs
+                let tail: Vec<Cell> = (0..n).map(|i| if i + r >= n || i == 1 { Cell::Null } else { val(i) }).collect();
+                unit_case(cases, &tail, (n + r) as u64, false, &format!("tail{}-{}", r, name));
+                // `r` NULLs then values
+                let lead: Vec<Cell> = (0..n).map(|i| if i < r { Cell::Null } else { val(i) }).collect();
+                unit_case(cases, &lead, (n + r + 1) as u64, false, &format!("lead{}-{}", r, name));
+            }
+        }
+    }
 }
 
 // ------------------------------------------------------------------------------------------------
@@ -928,14 +960,16 @@ fn tail_ladder_stream(cases: &mut Cases, rng: &mut Rng, thorough: bool) {
     let factors = [0u64, 1, 2, 3, 4];
     for (i, &n) in sizes.iter().enumerate() {
         for (j, &f) in factors.iter().enumerate() {
-            // quick: a covering half of the size x factor grid (every size under >= 2 factors, every factor under >= 1 size, the
-            // all-merging factors 0 / 1 under every size); thorough: the whole grid, with and without mem_lz4
-            let quick_pick = f <= 1 || (i + j) % 4 == 0;
+            // quick: 7 of the 20 size x factor combinations (every size under one of the all-merging factors 0 / 1 — sizes 8, 24
+            // under 0, sizes 16, 64 under 1 — and factors 2 / 3 / 4 under sizes 24 / 16 / 8); thorough: the whole grid, with and
+            // without mem_lz4
+            let quick_pick = if f <= 1 { (i % 2) as u64 == f } else { (i + j) % 4 == 0 };
             if !thorough && !quick_pick { continue; }
             // factor f merges once f + 1 equal partitions exist (then the merged one with later ones)
             let nflush = (f as usize + 2).max(4);
-            tail_ladder_db(cases, rng, f, (i + j) % 2 == 1, n, nflush);
-            if thorough { tail_ladder_db(cases, rng, f, (i + j) % 2 == 0, n, nflush + 2); }
+            let lz4 = (i + j / 2) % 2 == 1;
+            tail_ladder_db(cases, rng, f, lz4, n, nflush);
+            if thorough { tail_ladder_db(cases, rng, f, !lz4, n, nflush + 2); }
         }
     }
 }
